@@ -17,6 +17,7 @@ type GenOpts struct {
 	Density    int  // percent chance that an optional node is present
 	KeyPool    int  // keys are drawn from a small pool so that histories overlap
 	Budget     *int // remaining data nodes this tree may still get (nil: unlimited)
+	EmptyLL    bool // a leaf-list may be present with zero items
 }
 
 // WithBudget returns o limited to n data nodes.
@@ -125,7 +126,7 @@ func Value(r *kit.Rng, s *schema.Node, o GenOpts) string {
 		return ""
 	case "identityref":
 		return schema.Idents[r.Intn(len(schema.Idents))]
-	case "union":
+	case "union", "unione":
 		if r.Chance(1, 2) {
 			return fmt.Sprint(r.Range(-1000, 1000))
 		}
@@ -211,7 +212,10 @@ func Random(r *kit.Rng, s *schema.Node, o GenOpts, depth int) *Tree {
 			t.Leaf[c.Name] = Value(r, c, o)
 		case schema.LeafList:
 			n := r.Range(1, 3)
-			var vs []string
+			vs := []string{}
+			if o.EmptyLL && r.Chance(1, 6) {
+				n = 0
+			}
 			seen := map[string]bool{}
 			for i := 0; i < n; i++ {
 				v := Value(r, c, GenOpts{NoZero: true})
